@@ -348,6 +348,27 @@ func Run(sc *Scenario, seed Seed, cfg Config) (*Stats, []Found) {
 	for depth := 1; depth <= sc.Depth && len(frontier) > 0; depth++ {
 		var next []node
 		layerStart := atomic.LoadInt64(&newStates)
+		// work items: (node, chunk of the alphabet). With a small frontier the
+		// alphabet of each node is split so that all workers have work.
+		chunk := len(sc.Events)
+		if len(frontier) < 4*len(ws) {
+			per := (4*len(ws) + len(frontier) - 1) / len(frontier)
+			chunk = (len(sc.Events) + per - 1) / per
+			if chunk < 1 {
+				chunk = 1
+			}
+		}
+		type item struct{ n, lo, hi int }
+		var items []item
+		for ni := range frontier {
+			for lo := 0; lo < len(sc.Events); lo += chunk {
+				hi := lo + chunk
+				if hi > len(sc.Events) {
+					hi = len(sc.Events)
+				}
+				items = append(items, item{ni, lo, hi})
+			}
+		}
 		var idx int64 = -1
 		var stop int32
 		for wi := range ws {
@@ -360,17 +381,18 @@ func Run(sc *Scenario, seed Seed, cfg Config) (*Stats, []Found) {
 				var panicSamples []string
 				for {
 					i := atomic.AddInt64(&idx, 1)
-					if int(i) >= len(frontier) || atomic.LoadInt32(&stop) != 0 {
+					if int(i) >= len(items) || atomic.LoadInt32(&stop) != 0 {
 						break
 					}
 					if !cfg.Deadline.IsZero() && i%16 == 0 && time.Now().After(cfg.Deadline) {
 						atomic.StoreInt32(&stop, 1)
 						break
 					}
-					n := frontier[i]
+					it := items[i]
+					n := frontier[it.n]
 					ctx := Replay(w.c, w.seed, n.path)
 					pre := w.c.Snap(ctx)
-					for _, ev := range sc.Events {
+					for _, ev := range sc.Events[it.lo:it.hi] {
 						act := ev.Make(pre)
 						if act == nil {
 							continue
